@@ -104,20 +104,23 @@ namespace Pistache::Tcp
                     auto tag = entry.getTag();
                     auto fd  = static_cast<Fd>(tag.value());
 
+                    // The events of one poll are a snapshot: by the time this one is
+                    // handled an earlier one (a flush, a failed write) may have drained
+                    // or dropped what was pending for the descriptor, or removed the
+                    // peer. Then there is nothing left to do.
+                    bool pending;
                     {
                         Guard guard(toWriteLock);
-                        auto it = toWrite.find(fd);
-                        if (it == std::end(toWrite))
-                        {
-                            throw std::runtime_error(
-                                "Assertion Error: could not find write data");
-                        }
+                        pending = toWrite.find(fd) != std::end(toWrite);
                     }
 
-                    reactor()->modifyFd(key(), fd, NotifyOn::Read, Polling::Mode::Edge);
+                    if (pending)
+                    {
+                        reactor()->modifyFd(key(), fd, NotifyOn::Read, Polling::Mode::Edge);
 
-                    // Try to drain the queue
-                    asyncWriteImpl(fd);
+                        // Try to drain the queue
+                        asyncWriteImpl(fd);
+                    }
                 }
 
                 if (entry.isReadable())
